@@ -10,12 +10,14 @@ CfgOf(r) == [N |-> r.N, R |-> r.R, span |-> r.span, ge |-> r.ge, maxDelta |-> r.
 Near(x, unit, tol) == LET m == Mod(x + unit \div 2, unit) - unit \div 2 IN Abs(m) <= tol
 RoundTo(x, unit) == (x + unit \div 2 - Mod(x + unit \div 2, unit)) \div unit
 GridOf(r) == [zmin |-> r.zmin, zmax |-> r.zmax, nppr |-> RoundTo(r.nppr1024, 1024), oz |-> RoundTo(r.oz1024, 1024),
-              square |-> Abs(r.vx - r.vy) <= 8, xy0 |-> Abs(r.ox) <= 40 /\ Abs(r.oy) <= 40, tilt |-> r.tilt # 0, geom |-> r.geom]
+              square |-> Abs(r.vx - r.vy) <= 8, xy0 |-> Abs(r.ox) <= 40 /\ Abs(r.oy) <= 40, tilt |-> r.tilt # 0, geom |-> r.geom,
+              \* use_actual_detector_boundaries is honoured only for data without mashing and axial compression
+              uadb |-> "uadb" \in DOMAIN r /\ r.uadb /\ r.impl = "RayTracing" /\ r.mash = 1 /\ r.span = 1]
 SwOf(x) == [s90 |-> x[1] = 1, s180 |-> x[2] = 1, sseg |-> x[3] = 1, ss |-> x[4] = 1, sz |-> x[5] = 1]
 BinOfList(x) == Bin(x[1], x[2], x[3], x[4], x[5])
 \* the implementation's own description of the data must be the documented Michelogram (as in C01)
 DataOk(r, cc) ==
-  /\ LegalConfig(cc) /\ ~cc.ge /\ cc.span % 2 = 1
+  /\ LegalConfig(cc) /\ ~cc.ge
   /\ r.numViews = NumViews(cc) /\ r.minView = 0
   /\ r.minTof = MinTof(cc) /\ r.maxTof = MaxTof(cc)
   /\ Len(r.segs) = cc.maxSeg - cc.minSeg + 1
